@@ -23,9 +23,9 @@ detected (`ran_before_detection`, `ran_unknown_trigger`), FIFO (`fifo_order`), c
 `detected_without_condition`), creation (`action_signer_not_authority`, `gas_limit_above_cap`,
 `gas_not_prepaid`, `id_reused`), destruction (`destroyed_by_stranger`, `destroyed_while_queued`,
 `destroyed_nonexistent`, `owner_cannot_destroy`), one place (`two_places`, `queued_twice`,
-`listener_mismatch`, `gas_limit_mismatch`, `queue_counters`, `id_out_of_range`), totality
-(`beginblock_panic`, `endblock_panic:*`).  A disagreement between model and implementation that
-breaks none of these is left to the correspondence diff.
+`listener_mismatch`, `gas_limit_mismatch`, `queue_counters`, `id_out_of_range`).  A panicking block
+function gets no verdict (C17 states no liveness / no-panic clause); it, and any other disagreement
+between model and implementation that breaks none of the clauses, is left to the correspondence diff.
 -/
 import PvModel.TrigSpec
 -- registry: trig PvModel.Trig.driver
@@ -145,7 +145,9 @@ def fitCount (s : State) : List Nat → Nat → Nat → Nat
 
 def verdictBegin (d : DState) (impl : String) : String :=
   let ws := words impl
-  if ws.head? != some "ok" then "fail:beginblock_panic" else
+  -- a panicking block function breaks no stated clause of C17 (all are safety clauses): no verdict;
+  -- the correspondence diff still reports it when the model does not panic too
+  if ws.head? != some "ok" then "-" else
   let xs := parseImplExec (field ws "exec")
   let ids := xs.map (·.id)
   let q := qIds d.o
@@ -184,17 +186,10 @@ def verdictBegin (d : DState) (impl : String) : String :=
         else if expReg != natList (field ws "reg") then "fail:not_all_or_nothing:registry"
         else "ok"
 
-def isPoison (t : Trigger) : Bool :=
-  match t.event with
-  | .tx n _ => norm n == BlockHeightPrefix || norm n == BlockTimePrefix
-  | _ => false
-
 def verdictEnd (d : DState) (impl : String) : String :=
   let ws := words impl
-  if ws.head? != some "ok" then
-    if (regIds d.o).any fun i => ((d.o.triggers i).map isPoison).getD false
-    then "fail:endblock_panic:txevent_named_as_block_prefix" else "fail:endblock_panic:other"
-  else
+  -- a panicking EndBlock (see observations/C17.md) is outside C17's clauses: no verdict
+  if ws.head? != some "ok" then "-" else
     let ids := natList (field ws "det")
     let rec go (ids seen : List Nat) : String :=
       match ids with
